@@ -104,6 +104,8 @@ class CallMixin:
         if len(st2.pc) > len(st.pc):
             for f in st2.pc[len(st.pc):]:
                 st.assume(z3.ForAll(vars_, z3.Implies(guard, f)))
+        if st2.alloc is not st.alloc:
+            st.assume(st2.alloc >= st.alloc)  # allocation in the body (also when the iteration is empty)
         st.alloc = st2.alloc
         return vars_, g, elt, it
 
@@ -226,7 +228,32 @@ class CallMixin:
                 self.oblige(st, ctx, g, "site", "site[%s][%d]" % (key, i), node, "at call '%s': %s" % (key, spec))
         return self.ev_Call_(node, st, ctx)
 
+    def joblib_map(self, node):
+        """Parallel(...)(delayed(f)(args) for x in xs)  ->  [f(args) for x in xs]   (assumed contract of joblib: an
+        order-preserving map; the worker's side effects on its arguments do not reach the caller only matters for
+        callees that modify them, which the comprehension rule rejects)"""
+        f = node.func
+        if not (isinstance(f, ast.Call) and self.dotted(f.func) in ("Parallel", "joblib.Parallel")):
+            return None
+        if len(node.args) != 1 or not isinstance(node.args[0], ast.GeneratorExp):
+            return None
+        g = node.args[0]
+        e = g.elt
+        if not (isinstance(e, ast.Call) and isinstance(e.func, ast.Call) and self.dotted(e.func.func) in ("delayed", "joblib.delayed")
+                and len(e.func.args) == 1):
+            return None
+        call = ast.Call(func=e.func.args[0], args=e.args, keywords=e.keywords)
+        ast.copy_location(call, e)
+        comp = ast.ListComp(elt=call, generators=g.generators)
+        ast.copy_location(comp, node)
+        ast.fix_missing_locations(comp)
+        self.notes.add("joblib.Parallel(...)(delayed(f)(..) for ..) is read as the list [f(..) for ..] (order-preserving map: assumed contract of joblib)")
+        return comp
+
     def ev_Call_(self, node, st, ctx):
+        jm = self.joblib_map(node)
+        if jm is not None:
+            return self.ev(jm, st, ctx)
         f = node.func
         d = self.dotted(f) if isinstance(f, (ast.Attribute, ast.Name)) else None
         if d is not None:
@@ -430,11 +457,29 @@ class CallMixin:
         e = self.num(elt, st)
         j = vars_[0]
         n = self.length(it, st)
-        ps = z3.Function(fresh_name("psum"), I, I)
+        # the partial-sum function is named after the summand (with the bound variable renamed canonically), so that the
+        # same sum written in the code and in a specification is the same term
+        import hashlib
+        summand = z3.If(g, e.t, 0)
+        canon = z3.substitute(summand, (j, z3.Int("__J")))
+        ps = z3.Function("psum_" + hashlib.md5(canon.sexpr().encode()).hexdigest()[:12], I, I)
         jj = z3.Int(fresh_name("j"))
         st.assume(ps(0) == 0)
         st.assume(z3.ForAll([jj], z3.Implies(z3.And(0 <= jj, jj < n), ps(jj + 1) == ps(jj) + z3.If(
             z3.substitute(g, (j, jj)), z3.substitute(e.t, (j, jj)), 0))))
+        # sums with pointwise equal summands over the same length are equal (induction over the length; a trusted lemma of
+        # the encoding, instantiated for every pair of sums met while one function is verified)
+        if not hasattr(self, "_psums") or self._psums_owner is not self.cur_contract:
+            self._psums, self._psums_owner = [], self.cur_contract
+        lam = (j, summand)
+        for (ps2, (j2, s2), n2) in self._psums:
+            if ps2.eq(ps):
+                continue
+            q = z3.Int(fresh_name("q"))
+            self.sum_lemmas.append((ps.name(), ps2.name(), z3.Implies(
+                z3.And(n == n2, z3.ForAll([q], z3.Implies(z3.And(0 <= q, q < n), z3.substitute(summand, (j, q)) == z3.substitute(s2, (j2, q))))),
+                ps(n) == ps2(n2))))
+        self._psums.append((ps, lam, n))
         st.ghost["_psum_%d_%d" % (node.lineno, node.col_offset)] = SV(FUN, py=("psum", ps, n))
         return mk_int(ps(n))
 
